@@ -610,10 +610,11 @@ func CountPaths(f *ssa.Function, count func(in ssa.Instruction) (lo, hi int), sk
 type CountOpts struct {
 	Start    *ssa.BasicBlock // default: entry
 	Count    func(in ssa.Instruction) (lo, hi int)
-	SkipEdge func(from, to *ssa.BasicBlock) bool // edge absent
-	ExitEdge func(from, to *ssa.BasicBlock) bool // edge ends the path (counts as an exit), not followed
-	ExitOK   func(ret ssa.Instruction) bool      // returns not considered
-	NoReturn bool                                // returns are not exits (only ExitEdge)
+	SkipEdge func(from, to *ssa.BasicBlock) bool         // edge absent
+	ExitEdge func(from, to *ssa.BasicBlock) bool         // edge ends the path (counts as an exit), not followed
+	ExitOK   func(ret ssa.Instruction) bool              // returns not considered
+	NoReturn bool                                        // returns are not exits (only ExitEdge)
+	EdgeAdd  func(from, to *ssa.BasicBlock) (lo, hi int) // extra count carried by an edge (may be nil)
 }
 
 func CountPathsOpt(f *ssa.Function, o CountOpts) CountResult {
@@ -647,6 +648,14 @@ func CountPathsOpt(f *ssa.Function, o CountOpts) CountResult {
 					po := out[p]
 					if !po.reach {
 						continue
+					}
+					if o.EdgeAdd != nil {
+						elo, ehi := o.EdgeAdd(p, b)
+						po.lo += elo
+						po.hi += ehi
+						if po.hi > inf/2 {
+							po.hi = inf
+						}
 					}
 					if !s.reach {
 						s = po
@@ -710,7 +719,13 @@ func CountPathsOpt(f *ssa.Function, o CountOpts) CountResult {
 					continue
 				}
 				if o.ExitEdge(b, sc) {
-					note(out[b], last)
+					x := out[b]
+					if o.EdgeAdd != nil {
+						elo, ehi := o.EdgeAdd(b, sc)
+						x.lo += elo
+						x.hi += ehi
+					}
+					note(x, last)
 				}
 			}
 		}
